@@ -31,6 +31,13 @@ func init() {
 		Gen:        genURLSpell,
 		Impl:       implURLSpell,
 		Exhaustive: true,
+		// C04's theorems are about the href/src values only: a whole-document disagreement elsewhere is not its business
+		Affects: func(cs Case, impl, model string) []string {
+			if cs.Op != "doc" || !equalStrings(renderURLAttrValues(impl), renderURLAttrValues(model)) {
+				return []string{"C04"}
+			}
+			return nil
+		},
 		Scope: func(tier string) string {
 			if tier == "thorough" {
 				return "emit: exhaustive length<=3 over 34 fragments x 4 node kinds + 100k random; guard: exhaustive length<=4 over 20 fragments; doc: all single splits + all letter cases x 14 constructs x 3 safe configurations + 60k random double splits"
